@@ -122,15 +122,15 @@ Proof.
 Qed.
 
 (* a call gives back exactly the evaluator state it was started with *)
-Lemma A_call blk : A_blk blk -> forall w e v w' e' o, call_with blk w e v = (w', e', o) ->
+Lemma A_call blk : A_blk blk -> forall na w e v w' e' o, call_with blk na w e v = (w', e', o) ->
   w_nsw w <= w_nsw w' /\
   (o <> OFuel ->
      (forall c f gl body, v = VFun c f gl body -> e_gctx e <> c -> e' = e) /\
      (w_nsw w' = w_nsw w -> e' = e)).
 Proof.
-  intros Hb w e v w' e' o H. unfold call_with in H.
+  intros Hb na w e v w' e' o H. unfold call_with in H.
   destruct v as [| | |c f gl body| |]; try (inversion H; subst; split; [lia|]; intros _; split; [intros; discriminate|reflexivity]).
-  destruct (needs_arg f); [inversion H; subst; split; [lia|]; intros _; split; [intros; reflexivity|reflexivity]|].
+  destruct (negb (arity_ok f na)); [inversion H; subst; split; [lia|]; intros _; split; [intros; reflexivity|reflexivity]|].
   set (fi := {| fi_gl := gl; fi_ln := local_names gl body |}) in *.
   destruct (blk w (enter_call e c fi) body) as [[w1 e1] o1] eqn:B.
   destruct (Hb _ _ _ _ _ _ B) as (M & K).
@@ -147,12 +147,12 @@ Proof.
     rewrite Ps, last_snoc, removelast_snoc, Pg, Pc. destruct e; reflexivity.
 Qed.
 
-Lemma A_call_coherent blk : A_blk blk -> forall w e v w' e' o, call_with blk w e v = (w', e', o) ->
+Lemma A_call_coherent blk : A_blk blk -> forall na w e v w' e' o, call_with blk na w e v = (w', e', o) ->
   o <> OFuel -> coherent e -> coherent e'.
 Proof.
-  intros Hb w e v w' e' o H NF Co. unfold call_with in H.
+  intros Hb na w e v w' e' o H NF Co. unfold call_with in H.
   destruct v as [| | |c f gl body| |]; try (inversion H; subst; exact Co).
-  destruct (needs_arg f); [inversion H; subst; exact Co|].
+  destruct (negb (arity_ok f na)); [inversion H; subst; exact Co|].
   set (fi := {| fi_gl := gl; fi_ln := local_names gl body |}) in *.
   destruct (blk w (enter_call e c fi) body) as [[w1 e1] o1] eqn:B.
   destruct (Hb _ _ _ _ _ _ B) as (M & K).
@@ -218,9 +218,9 @@ Proof.
     split; [lia|]. auto.
   - (* SCall *)
     destruct (resolve_cref w e c) as [fv|]; [|inversion H; subst; split; [lia|auto using ptrs_eq_refl]].
-    destruct (call_with (block_with ex) w e fv) as [[w1 e1] o1] eqn:Cl.
-    destruct (A_call _ Hb _ _ _ _ _ _ Cl) as (M & K).
-    pose proof (A_call_coherent _ Hb _ _ _ _ _ _ Cl) as Co.
+    destruct (call_with (block_with ex) 0 w e fv) as [[w1 e1] o1] eqn:Cl.
+    destruct (A_call _ Hb _ _ _ _ _ _ _ Cl) as (M & K).
+    pose proof (A_call_coherent _ Hb _ _ _ _ _ _ _ Cl) as Co.
     destruct o1.
     + inversion H; subst. split; [lia|]. intros NF. destruct (K NF) as (_ & P). split; [auto|].
       intros EQ. rewrite (P EQ). apply ptrs_eq_refl.
@@ -237,8 +237,8 @@ Proof.
     + inversion H; subst. split; [lia|]. intros NF; congruence.
   - (* STask *)
     destruct (resolve_cref w e c) as [fv|]; [|inversion H; subst; split; [lia|auto using ptrs_eq_refl]].
-    destruct (call_with (block_with ex) w (fresh_ev (e_gctx e)) fv) as [[w1 e1] o1] eqn:Cl.
-    destruct (A_call _ Hb _ _ _ _ _ _ Cl) as (M & _).
+    destruct (call_with (block_with ex) 0 w (fresh_ev (e_gctx e)) fv) as [[w1 e1] o1] eqn:Cl.
+    destruct (A_call _ Hb _ _ _ _ _ _ _ Cl) as (M & _).
     destruct o1; inversion H; subst; (split; [lia|auto using ptrs_eq_refl]).
   - (* SReturn *)
     destruct (eval_expr w e e0); inversion H; subst; (split; [lia|auto using ptrs_eq_refl]).
@@ -281,6 +281,25 @@ Proof.
     + split; [lia|auto using ptrs_eq_refl].
   - (* SCallBad *)
     inversion H; subst; (split; [lia|auto using ptrs_eq_refl]).
+  - (* SDefDeco *)
+    destruct (resolve_cref w e d) as [fv|]; [|inversion H; subst; split; [lia|auto using ptrs_eq_refl]].
+    destruct (call_with (block_with ex) 1 w e fv) as [[w1 e1] o1] eqn:Cl.
+    destruct (A_call _ Hb _ _ _ _ _ _ _ Cl) as (M & K).
+    pose proof (A_call_coherent _ Hb _ _ _ _ _ _ _ Cl) as Co.
+    destruct o1.
+    + inversion H; subst. split; [lia|]. intros NF. destruct (K NF) as (_ & P). split; [auto|].
+      intros EQ. rewrite (P EQ). apply ptrs_eq_refl.
+    + match type of H with context [assign_name w1 e1 f ?R] => set (r' := R) in * end.
+      destruct (assign_name w1 e1 f r') as [w2 e2] eqn:As. inversion H; subst.
+      pose proof (assign_ptrs w1 e1 f r') as [P2 C2]. pose proof (nsw_assign w1 e1 f r') as N2. rewrite As in *; cbn in *.
+      split; [lia|]. intros _. destruct (K ltac:(discriminate)) as (_ & P).
+      split; [intros; apply C2, Co; [discriminate|assumption]|].
+      intros EQ. rewrite P in P2 by lia. exact P2.
+    + inversion H; subst. split; [lia|]. intros NF. destruct (K NF) as (_ & P). split; [auto|].
+      intros EQ. rewrite (P EQ). apply ptrs_eq_refl.
+    + inversion H; subst. split; [lia|]. intros NF; congruence.
+  - (* SSleep *)
+    inversion H; subst; (split; [lia|auto using ptrs_eq_refl]).
 Qed.
 
 Lemma A_exec cfg fuel : A_ok (exec cfg fuel).
@@ -296,7 +315,7 @@ Lemma call_restores : forall cfg fuel w e v w' e' o,
   (w_nsw w' = w_nsw w -> e' = e).
 Proof.
   intros cfg fuel w e v w' e' o H NF. unfold call_fun in H.
-  destruct (A_call _ (A_block _ (A_exec cfg fuel)) _ _ _ _ _ _ H) as (_ & K). exact (K NF).
+  destruct (A_call _ (A_block _ (A_exec cfg fuel)) _ _ _ _ _ _ _ H) as (_ & K). exact (K NF).
 Qed.
 
 Lemma block_ptrs : forall cfg fuel w e l w' e' o,
@@ -319,7 +338,8 @@ Inductive pure : stmt -> Prop :=
   | P_raise : pure SRaise
   | P_if e a b : Forall pure a -> Forall pure b -> pure (SIf e a b)
   | P_try a h : Forall pure a -> Forall pure h -> pure (STry a h)
-  | P_callbad c : pure (SCallBad c).
+  | P_callbad c : pure (SCallBad c)
+  | P_sleep : pure SSleep.
 
 (* values that belong to context a: plain data and functions defined in a whose bodies are pure *)
 Definition closedv (a : nat) (v : val) : Prop :=
@@ -425,13 +445,13 @@ Proof.
     destruct H2 as (F2 & K2). split; [eapply frame_trans; eauto|exact K2].
 Qed.
 
-Lemma B_call ex : A_ok ex -> B_ok ex -> forall a w e v, closedt a (tab w a) -> in_ctx a e -> closedv a v ->
-  B_res a w e (call_with (block_with ex) w e v).
+Lemma B_call ex : A_ok ex -> B_ok ex -> forall na a w e v, closedt a (tab w a) -> in_ctx a e -> closedv a v ->
+  B_res a w e (call_with (block_with ex) na w e v).
 Proof.
-  intros HA HB a w e v Ht Hi Hv. unfold call_with.
+  intros HA HB na a w e v Ht Hi Hv. unfold call_with.
   destruct v as [| | |c f gl body| |]; try (cbn; split; [apply frame_refl; assumption|auto]).
   destruct Hv as (-> & Hp).
-  destruct (needs_arg f); [cbn; split; [apply frame_refl; assumption|auto]|].
+  destruct (negb (arity_ok f na)); [cbn; split; [apply frame_refl; assumption|auto]|].
   set (fi := {| fi_gl := gl; fi_ln := local_names gl body |}).
   assert (Hin : in_ctx a (enter_call e a fi)).
   { destruct Hi as (Hg & Hc & Hs). unfold enter_call. rewrite Hc, Nat.eqb_refl. unfold in_ctx; cbn. repeat split; auto. apply closedt_nil. }
@@ -469,8 +489,8 @@ Proof.
     destruct (assign_name w e f (VFun (e_gctx e) f gl body)) as [w1 e1]. cbn in *. auto.
   - (* SCall *)
     destruct (resolve_cref w e c) as [fv|] eqn:R; [|cbn; split; [apply frame_refl; assumption|auto]].
-    pose proof (B_call _ HA HB a w e fv Ht Hi (cref_closed _ _ _ _ _ Ht Hi R)) as H1.
-    destruct (call_with (block_with ex) w e fv) as [[w1 e1] o1]. cbn in H1. destruct H1 as (F1 & K1).
+    pose proof (B_call _ HA HB 0 a w e fv Ht Hi (cref_closed _ _ _ _ _ Ht Hi R)) as H1.
+    destruct (call_with (block_with ex) 0 w e fv) as [[w1 e1] o1]. cbn in H1. destruct H1 as (F1 & K1).
     destruct o1; try (cbn; split; [exact F1|]; intros NF; destruct (K1 NF); auto).
     destruct (K1 ltac:(discriminate)) as (I1 & Cv).
     destruct d as [x|]; [|cbn; auto].
@@ -479,8 +499,8 @@ Proof.
   - (* STask *)
     destruct (resolve_cref w e c) as [fv|] eqn:R; [|cbn; split; [apply frame_refl; assumption|auto]].
     assert (If : in_ctx a (fresh_ev (e_gctx e))) by (destruct Hi as (_ & -> & _); unfold in_ctx; cbn; auto).
-    pose proof (B_call _ HA HB a w _ fv Ht If (cref_closed _ _ _ _ _ Ht Hi R)) as H1.
-    destruct (call_with (block_with ex) w (fresh_ev (e_gctx e)) fv) as [[w1 e1] o1]. cbn in H1. destruct H1 as (F1 & _).
+    pose proof (B_call _ HA HB 0 a w _ fv Ht If (cref_closed _ _ _ _ _ Ht Hi R)) as H1.
+    destruct (call_with (block_with ex) 0 w (fresh_ev (e_gctx e)) fv) as [[w1 e1] o1]. cbn in H1. destruct H1 as (F1 & _).
     destruct o1; cbn; auto.
   - (* SReturn *)
     destruct (eval_expr w e e0) as [v|] eqn:Ev; cbn; (split; [apply frame_refl; assumption|]); auto.
@@ -497,6 +517,8 @@ Proof.
     pose proof (Hb a w1 e1 h (proj1 (proj2 F1)) I1 H0) as H2. destruct (block_with ex w1 e1 h) as [[w2 e2] o2]. cbn in *.
     destruct H2 as (F2 & K2). split; [eapply frame_trans; eauto|exact K2].
   - (* SCallBad *)
+    cbn; split; [apply frame_refl; assumption|auto].
+  - (* SSleep *)
     cbn; split; [apply frame_refl; assumption|auto].
 Qed.
 
@@ -771,11 +793,11 @@ Proof.
     eapply ext_trans; [exact X1|eapply IH; eauto].
 Qed.
 
-Lemma D_call blk : D_blk blk -> forall w e v w' e' o, call_with blk w e v = (w', e', o) -> ext w w'.
+Lemma D_call blk : D_blk blk -> forall na w e v w' e' o, call_with blk na w e v = (w', e', o) -> ext w w'.
 Proof.
-  intros Hb w e v w' e' o H. unfold call_with in H.
+  intros Hb na w e v w' e' o H. unfold call_with in H.
   destruct v as [| | |c f gl body| |]; try (inversion H; subst; apply ext_refl).
-  destruct (needs_arg f); [inversion H; subst; apply ext_refl|].
+  destruct (negb (arity_ok f na)); [inversion H; subst; apply ext_refl|].
   match type of H with context [blk ?W ?E body] => destruct (blk W E body) as [[w1 e1] o1] eqn:B end.
   pose proof (Hb _ _ _ _ _ _ B) as X. destruct o1; inversion H; subst; exact X.
 Qed.
@@ -967,14 +989,14 @@ Proof.
   - pose proof (view_assign w e f (VFun (e_gctx e) f gl body)) as V.
     destruct (assign_name w e f (VFun (e_gctx e) f gl body)) as [w1 e1]. inversion H; subst. apply ext_view; exact V.
   - destruct (resolve_cref w e c) as [fv|]; [|inversion H; subst; apply ext_refl].
-    destruct (call_with (block_with ex) w e fv) as [[w1 e1] o1] eqn:Cl. pose proof (D_call _ Hb _ _ _ _ _ _ Cl) as X.
+    destruct (call_with (block_with ex) 0 w e fv) as [[w1 e1] o1] eqn:Cl. pose proof (D_call _ Hb _ _ _ _ _ _ _ Cl) as X.
     destruct o1; try (inversion H; subst; exact X).
     destruct dst as [x|]; [|inversion H; subst; exact X].
     pose proof (view_assign w1 e1 x v) as V. destruct (assign_name w1 e1 x v) as [w2 e2]. inversion H; subst.
     eapply ext_trans; [exact X|apply ext_view; exact V].
   - destruct (resolve_cref w e c) as [fv|]; [|inversion H; subst; apply ext_refl].
-    destruct (call_with (block_with ex) w (fresh_ev (e_gctx e)) fv) as [[w1 e1] o1] eqn:Cl.
-    pose proof (D_call _ Hb _ _ _ _ _ _ Cl) as X. destruct o1; inversion H; subst; exact X.
+    destruct (call_with (block_with ex) 0 w (fresh_ev (e_gctx e)) fv) as [[w1 e1] o1] eqn:Cl.
+    pose proof (D_call _ Hb _ _ _ _ _ _ _ Cl) as X. destruct o1; inversion H; subst; exact X.
   - destruct (eval_expr w e e0); inversion H; subst; apply ext_refl.
   - inversion H; subst; apply ext_refl.
   - destruct (eval_expr w e e0) as [v|]; [|inversion H; subst; apply ext_refl].
@@ -1000,6 +1022,13 @@ Proof.
   - eapply D_import_dots; eauto.
   - destruct (pget (w_mgr w) c); inversion H; subst; [apply ext_view, view_bump|apply ext_refl].
   - inversion H; subst; apply ext_refl.
+  - destruct (resolve_cref w e d) as [fv|]; [|inversion H; subst; apply ext_refl].
+    destruct (call_with (block_with ex) 1 w e fv) as [[w1 e1] o1] eqn:Cl. pose proof (D_call _ Hb _ _ _ _ _ _ _ Cl) as X.
+    destruct o1; try (inversion H; subst; exact X).
+    match type of H with context [assign_name w1 e1 f ?R] => set (r' := R) in * end.
+    pose proof (view_assign w1 e1 f r') as V. destruct (assign_name w1 e1 f r') as [w2 e2]. inversion H; subst.
+    eapply ext_trans; [exact X|apply ext_view; exact V].
+  - inversion H; subst; apply ext_refl.
 Qed.
 
 Lemma D_exec cfg fuel : D_ok (exec cfg fuel).
@@ -1011,7 +1040,7 @@ Qed.
 
 (* top level *)
 Fixpoint load_names (ops : list op) : list path :=
-  match ops with [] => [] | OpLoad n _ _ :: r => n :: load_names r | OpTrig _ _ :: r => load_names r end.
+  match ops with [] => [] | OpLoad n _ _ :: r => n :: load_names r | _ :: r => load_names r end.
 
 Definition top_rel (w w' : world) : Prop := (w_cyc w = true -> w_cyc w' = true) /\ (w_cyc w' = false -> J w -> J w').
 
@@ -1030,10 +1059,20 @@ Proof.
   - rewrite pget_pset, path_eqb_neq in H by exact Ne. apply Jc; exact H.
 Qed.
 
+Lemma D_run_trig cfg fuel w n f w' ok : run_trig cfg fuel w n f = (w', ok) -> top_rel w w'.
+Proof.
+  intros H. unfold run_trig in H.
+  destruct (pget (w_mgr w) n) as [c|]; [|inversion H; subst; split; auto].
+  destruct (tget (tab w c) f) as [v|]; [|inversion H; subst; split; auto].
+  destruct v as [| | |c' f' gl body| |]; try (inversion H; subst; split; auto; fail).
+  destruct (call_fun cfg fuel w (fresh_ev c') (VFun c' f' gl body)) as [[w1 e1] o1] eqn:Cl.
+  inversion H; subst. apply top_of_ext. eapply D_call; [apply D_block, D_exec|exact Cl].
+Qed.
+
 Lemma D_run_op cfg fuel w o w' ok : (forall n rel src, o = OpLoad n rel src -> In n T) ->
   run_op cfg fuel w o = (w', ok) -> top_rel w w'.
 Proof.
-  intros HT H. destruct o as [n rel src|n f]; cbn [run_op] in H.
+  intros HT H. destruct o as [n rel src|n f|n f g v]; cbn [run_op] in H.
   - specialize (HT n rel src eq_refl).
     cbv beta iota zeta delta [new_ctx] in H.
     match type of H with context [exec_block cfg fuel ?W ?E src] => destruct (exec_block cfg fuel W E src) as [[w2 e2] o2] eqn:B end.
@@ -1046,11 +1085,10 @@ Proof.
         destruct (nth_error (w_ctxs w) c) eqn:E; [|discriminate]. apply nth_error_Some. congruence. }
     destruct o2; inversion H; subst; try exact R1.
     destruct R1 as (R1 & R2). split; [exact R1|]. intros Hc Hj. apply J_set_top; [exact HT|]. apply R2; assumption.
+  - eapply D_run_trig; eauto.
   - destruct (pget (w_mgr w) n) as [c|]; [|inversion H; subst; split; auto].
-    destruct (tget (tab w c) f) as [v|]; [|inversion H; subst; split; auto].
-    destruct v as [| | |c' f' gl body| |]; try (inversion H; subst; split; auto; fail).
-    destruct (call_fun cfg fuel w (fresh_ev c') (VFun c' f' gl body)) as [[w1 e1] o1] eqn:Cl.
-    inversion H; subst. apply top_of_ext. eapply D_call; [apply D_block, D_exec|exact Cl].
+    destruct (tget (tab w c) g) as [[t| | | | |]|]; try (inversion H; subst; split; auto; fail).
+    destruct (Z.ltb t v); [eapply D_run_trig; eauto|inversion H; subst; split; auto].
 Qed.
 
 Lemma D_run_ops cfg fuel : forall ops w w' ok, (forall n, In n (load_names ops) -> In n T) ->
@@ -1063,7 +1101,7 @@ Proof.
     { eapply D_run_op; [|exact R1]. intros n rel src ->. apply HT. left; reflexivity. }
     destruct ok1; [|inversion H; subst; exact T1].
     assert (T2 : top_rel w1 w').
-    { eapply IH; [|exact H]. intros n Hn. apply HT. destruct o; [right; exact Hn|exact Hn]. }
+    { eapply IH; [|exact H]. intros n Hn. apply HT. destruct o; [right; exact Hn|exact Hn|exact Hn]. }
     destruct T1 as (A1 & B1), T2 as (A2 & B2). split; [auto|].
     intros Hc Hj. apply B2; [exact Hc|]. apply B1; [|exact Hj].
     destruct (w_cyc w1) eqn:E; [rewrite (A2 eq_refl) in Hc; discriminate|reflexivity].
